@@ -33,7 +33,7 @@ RULE = ("lattice: cases = (filter node subset, storage order), executions = resp
         "non-trivial = distinct (filter, SED grid) pairs whose overlap is non-empty and whose filter has a non-zero response")
 ASSUMPTIONS = ["non-negative responses, strictly positive distinct frequencies", "lattice exhaustive; beyond it a finite seed-derived family"]
 REQUIRED_CLASSES = ['bin-edge-on-filter-end', 'several-nodes-in-one-bin', 'filter-decreasing-nu', 'sed-decreasing-nu', 'partial-overlap-low', 'partial-overlap-high',
-                    'filter-outside-sed', 'empty-bin', 'normalized-flat', 'linearity', 'file-filter', 'pkg-v1', 'pkg-v2', 'pkg-errors', 'irregular', 'seds-with-different-grids', 'filter-nu-in-other-unit']
+                    'filter-outside-sed', 'empty-bin', 'normalized-flat', 'linearity', 'file-filter', 'pkg-v1', 'pkg-v2', 'pkg-errors', 'irregular', 'seds-with-different-grids', 'filter-nu-in-other-unit', 'two-filters-one-response-array']
 TIMEOUT = {'quick': 600, 'thorough': 3000}
 
 LAT_F = [2, 3, 4, 5, 6]
@@ -330,6 +330,30 @@ def _object(ctx, case, rec, d):
     rec.cls('linearity')
     if fb.name != f.name or fb.central_wavelength != f.central_wavelength:
         rec.violation('rebin|metadata', sub, {})
+    # ---- two in-memory filters built from ONE response array (same instrument curve on two frequency grids): normalising the
+    # second must not disturb the first
+    from sedfitter.filter import Filter as _F
+    shared = rng.uniform(0.2, 1.0, 5)
+    nuA = np.sort(rng.uniform(lo, hi, 5))
+    nuB = nuA * 1.7
+    keep = shared.copy()
+    fA, fB = _F(), _F()
+    for ff, nn, nm in ((fA, nuA, 'A'), (fB, nuB, 'B')):
+        ff.name = nm
+        ff.central_wavelength = 2.0 * u.micron
+        ff.nu = nn * u.Hz
+        ff.response = shared
+    fA.normalize()
+    fB.normalize()
+    rec.ev(2)
+    rec.trans(2)
+    rec.cls('two-filters-one-response-array')
+    for ff, nn, nm in ((fA, nuA, 'A'), (fB, nuB, 'B')):
+        RR, ov, tt = convref.rebin_exact([Fr(float(x)) for x in nn], [Fr(float(y)) for y in np.asarray(ff.response)], np.r_[nn[0] * 0.5, nn, nn[-1] * 2.0])
+        if abs(float(tt) - 1.0) > 1e-11:
+            rec.violation('normalize|aliased-response', dict(sub, filter=nm), {'integral_after_normalize': float(tt), 'note': 'two filters were given the same response array'})
+    if not np.array_equal(shared, keep):
+        rec.notes['caller-array-modified-by-normalize'] += 1
 
 
 def _package(ctx, case, rec, d):
